@@ -684,7 +684,19 @@ def run(tier, seed):
         "text of matrix/cubemeasure.py and stripe/cubemeasure.py by the C09_gen_* obligations "
         "(Proofs/GenAgreePruning.v)",
         core.TRUSTED_BASE_TRANSLATOR,
+        "the hidden set and the `if idx not in hidden_idxs` filters of the three collators (collator.py _hidden_idxs, "
+        "_display_order, payload_order, display_order) are ALSO tied to the source text by the C09_gen_* obligations of "
+        "Section GenAgreeCollator_C09 (Proofs/GenAgreeCollatorAnchored.v, GenAgreeCollatorSbv.v)",
+        _collator_trusted_base(),
         "the harness' own tabulation of the survey into unweighted eligibility counts (unweighted_tensor)"])
+
+
+def _collator_trusted_base():
+    try:
+        from harness.translate import x_collator
+        return x_collator.TRUSTED_BASE
+    except Exception:  # the translator module is missing: the obligations gate reports it
+        return "collator translator harness/translate/x_collator.py not importable"
 
 
 def replay(path):
